@@ -48,7 +48,7 @@ func (c17) Batches(tier string, seed uint64) []core.Batch {
 func (c17) Mandatory(tier string) []string {
 	return []string{"full:entries>=2", "full:no-final-newline", "full:leading-blank-lines", "full:multi-distribution", "full:multi-option", "full:zone-half-hour", "full:zone-negative",
 		"prefix:between-entries", "prefix:in-header", "prefix:in-body", "prefix:in-trailer", "prefix:missing-only-final-newline", "prefix:empty", "outcome:error", "outcome:entries",
-		"malformed:version", "malformed:no-date", "malformed:month", "malformed:column0-body", "malformed:no-trailer", "malformed:indented-header", "full:line>=4096-bytes", "path:Parse", "path:ParseOne", "path:ParseOne-16-byte-reader", "path:ParseFile", "path:ParseFile-fifo", "path:Parse-onebyte-reader", "path:Parse-data+EOF-reader", "path:Parse-failing-source", "full:entry-without-options", "full:body-line-of-blanks-only"}
+		"malformed:version", "malformed:no-date", "malformed:month", "malformed:column0-body", "malformed:no-trailer", "malformed:indented-header", "full:line>=4096-bytes", "path:Parse", "path:ParseOne", "path:ParseOne-16-byte-reader", "path:ParseFile", "path:ParseFile-fifo", "path:Parse-onebyte-reader", "path:Parse-data+EOF-reader", "path:Parse-failing-source", "full:entry-without-options", "full:body-line-of-blanks-only", "env:time.Local-varied"}
 }
 
 type clEntry struct {
@@ -276,6 +276,12 @@ func parseOneLoopSized(text string, size int) ([]changelog.ChangelogEntry, error
 
 func (p c17) full(c *core.C, d clDoc) {
 	text, _, _ := d.render()
+	// the process time zone varies from case to case: the instant and offset of a trailer date are what the
+	// text says, wherever the reader happens to run
+	oldLocal := time.Local
+	time.Local = []*time.Location{time.UTC, time.FixedZone("CEST", 7200), time.FixedZone("NST", -12600), time.FixedZone("", 14*3600)}[len(text)%4]
+	defer func() { time.Local = oldLocal }()
+	c.Cover("env:time.Local-varied")
 	for _, path := range []string{"Parse", "Parse-onebyte-reader", "Parse-data+EOF-reader", "Parse-chunk-reader", "ParseFile", "ParseFile-fifo", "ParseOne", "ParseOne-16-byte-reader", "ParseOne-200-byte-reader", "ParseOne-64KiB-reader"} {
 		var got []changelog.ChangelogEntry
 		var err error
